@@ -17,7 +17,9 @@ ASSUMPTIONS = [
 
 
 def tasks(tier):
-    ts = [N.NegRequestorTask("C11/"), N.CompositionTask("C11/"), N.RoleTableTask("C11/"), N.TsInvariantTask("C11/")]
+    from contracts.acse_neg import RequestorSiteTask
+    ts = [N.NegRequestorTask("C11/"), N.CompositionTask("C11/"), N.RoleTableTask("C11/"), N.TsInvariantTask("C11/"),
+          RequestorSiteTask("C11/")]
     # wire form of the result list and of the role items (subset of the C01 tasks)
     ts += [codec.PrimTask("A_ASSOCIATE/ac", (2, 1, ("MaximumLengthNotification", "ImplementationClassUIDNotification")), "C11/"),
            codec.PrimTask("A_ASSOCIATE/ac", (1, 1, ("MaximumLengthNotification", "ImplementationClassUIDNotification",
